@@ -37,7 +37,8 @@ HEADER_T = ("From PintV Require Import Model.UC Model.Eval Model.Registry Model.
             "Model.UncTok Model.MeasureRun Gen.DefaultDefs Gen.DefaultReg.\n"
             "Open Scope string_scope.\n"
             "Definition qk : quirks := Quirks {eof} {short} {epre}.\n"
-            "Definition ok (c : c19case) : bool := c19_ok qk default_reg c.\n")
+            "Definition ok (c : c19case) : bool := c19_ok qk default_reg c.\n"
+            "Definition ok_noreg (c : c19case) : bool := c19_ok qk empty_reg c.\n")
 
 RTOL = 1e-12
 
@@ -811,7 +812,7 @@ def run(ck):
         ck.count(count)
         return obs, plain
 
-    n_inst = 2600 if thorough else 520
+    n_inst = 2600 if thorough else 400
     followers = ["", "", " ", " m", "*m", " meter", " m**2", "m", " km", " eV", "eV", " erg", "erg", " E", " e", " + 2", " - 1",
                  "+2", " 5", "(2)", " (2) m", ")", " e5", " * 3 m", "/s", " eV + 3 eV", "eV+3 eV", "eV-3 eV", " erg - 2 erg",
                  "erg+5", "e", "E+3", "e+x", " second", " electron_volt", "exa"]
@@ -872,12 +873,12 @@ def run(ck):
     # ------------------------------------------------------------ tokenizer: conservative and malformed streams
     atoms = ["1", "2.5", "3e5", "0", "x", "m", "s", "kg", "nan", "e", "E", "e5", "1_000", "0x1F", "2j", "meter", ".5", "7."]
     opsx = ["+", "-", "*", "/", "**", "//", "%", " ", " ", "(", ")", "+/-", "±", " +/- ", "^"]
-    for _ in range(1500 if thorough else 300):
+    for _ in range(1500 if thorough else 220):
         k = rng.randint(1, 9)
         s = "".join(rng.choice(atoms) if i % 2 == 0 else rng.choice(opsx) for i in range(2 * k + 1))
         tok_case(s, {"kind": "ordinary", "string": s}, "ordinary-expression")
     soup = list("0123456789..eE+-/()* ") + ["nan", "m", "+/-", "±", "(", ")", "e+", "e-", "0", "1.0(1)", "(1+/-2)"]
-    for _ in range(1500 if thorough else 300):
+    for _ in range(1500 if thorough else 220):
         s = "".join(rng.choice(soup) for _ in range(rng.randint(1, 14)))
         tok_case(s, {"kind": "malformed", "string": s}, "malformed")
     for s in ["1 ± 2", "(1±2)e3 m", "a±b", "±", "1 +/- 2 ± 3", "µm ± 1", "(1.0 ± 0.1) µm", "°C", "1.0 ±0.1 m²"]:
@@ -918,7 +919,7 @@ def run(ck):
     temp = next(v for k, v in bydim.items() if k == (("[temperature]", F(1)),))
     pairs = [(a, b) for a in temp for b in temp]
     allpairs = [(a, b) for v in bydim.values() for a in v for b in v if a != b and v is not temp]
-    pairs += allpairs if thorough else rng.sample(allpairs, 420)
+    pairs += allpairs if thorough else rng.sample(allpairs, 300)
     # cross-dimension and delta/offset mixes
     pairs += [("degree_Celsius", "meter"), ("meter", "second"), ("delta_degree_Celsius", "degree_Celsius"),
               ("degree_Celsius", "delta_degree_Fahrenheit"), ("kelvin", "delta_degree_Celsius")]
@@ -964,7 +965,7 @@ def run(ck):
               "s": ["s", "ms"], "ms": ["s", "ms"], "kg": ["kg", "g", "lb"], "degC": ["degC", "degF", "kelvin", "degR", "delta_degC"],
               "degF": ["degF", "degC", "kelvin"], "kelvin": ["kelvin", "degC", "degR", "delta_degC"], "degR": ["degR", "kelvin", "degF"],
               "delta_degC": ["delta_degC", "kelvin", "delta_degF"], "m/s": ["m/s", "km/hour"], "": ["", "percent"]}
-    for _ in range(2400 if thorough else 600):
+    for _ in range(2400 if thorough else 450):
         form = rng.choice(["qty", "nums", "nums", "bare", "ufloat", "qtyu", "pm", "pm"])
         vu = "" if form == "bare" else rng.choice(unit_pool)
         vq, vt = dec(rng.randint(1, 9999) * rng.choice([1, 1, -1]), rng.randint(-20, 17))
@@ -1010,7 +1011,7 @@ def run(ck):
                 fails.append((f"ctor-forms-error:{type(exn).__name__}", f"{c}: {exn}", rp))
 
     # ------------------------------------------------------------ arithmetic expressions with shared variables
-    n_expr = 2000 if thorough else 450
+    n_expr = 2000 if thorough else 320
     done = 0
     attempts = 0
     while done < n_expr and attempts < 20 * n_expr:
@@ -1075,7 +1076,7 @@ def run(ck):
 
     # ------------------------------------------------------------ formats
     fmt_units = ["meter", "second", "meter/second**2", "degC", "", "kilogram*meter**2", "eV"]
-    for _ in range(500 if thorough else 110):
+    for _ in range(500 if thorough else 80):
         # lossless measurements: std has 1 or 2 significant digits, nominal goes down to the same decimal place
         k = rng.randint(-6, 6)
         # (uncertainties shows 2 digits of an uncertainty whose leading digits are 10..35, else 1)
@@ -1103,7 +1104,13 @@ def run(ck):
     ck.count("join_unc", len(ms) * 9)
 
     # ------------------------------------------------------------ differ inside Coq
-    bad = ck.coq_mismatches("c19", header, [c for c, _ in cases], "ok", shard=250)
+    # cases that never look at the registry (tokens, trees, join_unc, priorities) run against the empty
+    # registry: their shards do not pay for evaluating the bundled one
+    noreg = [i for i, (c, _) in enumerate(cases) if c.split(" ", 1)[0] in ("KTok", "KReplace", "KRender", "KTree", "KTokVal", "KPrio", "KJoin")]
+    withreg = [i for i in range(len(cases)) if i not in set(noreg)]
+    bad_a = ck.coq_mismatches("c19t", header, [cases[i][0] for i in noreg], "ok_noreg", shard=300)
+    bad_b = ck.coq_mismatches("c19r", header, [cases[i][0] for i in withreg], "ok", shard=300)
+    bad = None if bad_a is None or bad_b is None else sorted([noreg[i] for i in bad_a] + [withreg[i] for i in bad_b])
     ck.extra["model_vs_impl_cases"] = len(cases)
     ck.extra["model_vs_impl_disagreements"] = None if bad is None else len(bad)
     if bad:
